@@ -230,6 +230,7 @@ pub struct PreferenceManager {
     rules_dir: PathBuf,                   // full path to rules dir
     error: String,                        // empty/default string if fields are set, otherwise error message
     user_prefs: Preferences,              // prefs that come from reading prefs.yaml (system and user locations)
+    user_prefs_set_by_api: HashSet<String>, // names of the user prefs whose value was set by an API call (these values override the files)
     api_prefs: Preferences,               // prefs set by API calls (along with some defaults not in the user settings such as "pitch")
     sys_prefs_file: Option<FileAndTime>,  // the system prefs.yaml file
     user_prefs_file: Option<FileAndTime>, // the user prefs.yaml file
@@ -380,6 +381,12 @@ impl PreferenceManager {
                 Some(file) => file.to_string_lossy().to_string(),
             };
             bail!("Didn't find preferences in rule directory ('{}') or user directory ('{}')", &system_prefs_file.to_string_lossy(), user_prefs_file_name);
+        }
+        // a value set by set_preference() overrides the value in the files (also when the files are read again)
+        for name in &self.user_prefs_set_by_api {
+            if let Some(value) = self.user_prefs.prefs.get(name) {
+                prefs.prefs.insert(name.clone(), value.clone());
+            }
         }
         self.set_files_based_on_changes(&prefs)?;
         self.user_prefs = prefs;
@@ -761,6 +768,7 @@ impl PreferenceManager {
             let is_decimal_separators_changed = key == "DecimalSeparator" && current_decimal_separator != value;
             let is_language_changed = key == "Language" && self.user_prefs.prefs.get("Language").unwrap().as_str().unwrap() != value;
             self.user_prefs.prefs.insert(key.to_string(), Yaml::String(value.to_string()));
+            self.user_prefs_set_by_api.insert(key.to_string());
             if is_decimal_separators_changed || (current_decimal_separator == "Auto" && is_language_changed) {
                 // a little messy about the language due immutable and mutable borrows)
                 let language = self.user_prefs.prefs.get("Language").unwrap_or(&DEFAULT_LANG).clone();
